@@ -123,8 +123,8 @@ def confirm (c : Cfg) (s : State) (sid : Nat) (cid : Option Nat) (now : Int) : S
         | none => s1
       match withAffix cand.chain with
       | some (word, reading) =>
-        let e : Entry := ⟨word, reading, .noun .common⟩
-        { s2 with userDict := s2.userDict ++ [e], pending := s2.pending ++ [e] }
+        -- the compound is queued for the updater, which records it in the user dictionary when it applies it (fix c5e9959)
+        { s2 with pending := s2.pending ++ [⟨word, reading, .noun .common⟩] }
       | none => s2
 
 /-- `ConversionSession::find_candidate`: the candidates of a session carry the ids `"0"`, `"1"`, … (`idx.to_string()` in
